@@ -532,3 +532,144 @@ def gen_history(rnd, ir, dname, openargs, recs, hdr, sizes, length=None, toggles
         openargs=openargs)
     p['toggles'] = [list(t) for t in p['toggles']]
     return {'buf': buf, 'plat': p, 'calls': calls}
+
+
+# ---- two-thread driver for ThreadSanitizer (C17, thorough tier) ----------------------------------------
+
+def const_elem(g, e, ind):
+    """emits statements that build one constant value of element type e in memory owned by the calling
+    thread; returns the C expression holding it"""
+    if e['k'] == 'sarr':
+        t = c_elem_type(e['e'])
+        a = g.var('a')
+        i = g.var('i')
+        g.emit(f'{t} *{a} = ({t} *) malloc({max(e["n"], 1)} * sizeof({t})); unsigned {i};', ind)
+        g.emit(f'for ({i} = 0; {i} < {e["n"]}u; {i}++) {{', ind)
+        x = const_elem(g, e['e'], ind + 1)
+        g.emit(f'{a}[{i}] = {x};', ind + 1)
+        g.emit('}', ind)
+        return a
+    if e['k'] == 'int':
+        return f'({c_int_type(e)}) (seed + 1)'
+    if e['k'] == 'real':
+        return '(float) seed + 0.5f' if e['sz'] == 32 else '(double) seed + 0.25'
+    return '(seed ? "thread-one" : "thread-zero")'
+
+
+def gen_const_call(g, fname, first_arg, params):
+    g.emit('{', 1)
+    argv = [first_arg]
+    for pname, ft in params:
+        if ft['k'] == 'darr':
+            t = c_elem_type(ft['e'])
+            a = g.var('d')
+            i = g.var('i')
+            g.emit(f'{t} *{a} = ({t} *) malloc(3 * sizeof({t})); uint32_t {i};', 2)
+            g.emit(f'for ({i} = 0; {i} < 2; {i}++) {{', 2)
+            x = const_elem(g, ft['e'], 3)
+            g.emit(f'{a}[{i}] = {x};', 3)
+            g.emit('}', 2)
+            argv.append(f'(const void *) {a}')
+        elif ft['k'] == 'sarr':
+            argv.append(f'(const void *) {const_elem(g, ft, 2)}')
+        elif ft['k'] == 'int' and pname.split('_', 1)[-1].startswith('__') and pname.endswith('_len'):
+            argv.append('2')
+        else:
+            v = g.var('s')
+            g.emit(f'{c_scalar_type(ft)} {v} = {const_elem(g, ft, 2)};', 2)
+            argv.append(v)
+    g.emit(f'{fname}({", ".join(argv)});', 2)
+    g.emit('}', 1)
+
+
+TSAN_SRC = r'''
+#include <pthread.h>
+#include <stdio.h>
+#include <stdlib.h>
+#include <string.h>
+#include "%(cfile)s"
+
+struct th { struct %(sctx)s ctx; uint64_t clk; uint8_t *buf; unsigned long packets; unsigned seed; };
+
+%(clocks)s
+static int cb_full(void *data) { (void) data; return 0; }
+static void do_open(struct th *t) {
+	unsigned seed = t->seed; (void) seed;
+%(open)s
+}
+static void cb_open(void *data) { do_open((struct th *) data); }
+static void cb_close(void *data) { struct th *t = (struct th *) data; %(p)s%(dst)s_close_packet(&t->ctx); t->packets++; }
+
+static void trace_all(struct th *t) {
+	unsigned seed = t->seed; (void) seed;
+%(traces)s
+}
+
+static void *worker(void *arg) {
+	struct th *t = (struct th *) arg;
+	struct %(p)splatform_callbacks cbs;
+	unsigned i;
+	memset(&cbs, 0, sizeof(cbs));
+	cbs.is_backend_full = cb_full; cbs.open_packet = cb_open; cbs.close_packet = cb_close;
+%(setclocks)s
+	t->buf = (uint8_t *) malloc(%(bufsz)d);
+	%(p)sinit(&t->ctx, t->buf, %(bufsz)d, cbs, t);
+	do_open(t);
+	for (i = 0; i < %(iters)d; i++) trace_all(t);
+	if (%(p)spacket_is_open(&t->ctx) && !%(p)spacket_is_empty(&t->ctx)) %(p)s%(dst)s_close_packet(&t->ctx);
+	return NULL;
+}
+
+int main(void) {
+	static struct th T[2];
+	pthread_t a, b;
+	T[0].seed = 0; T[1].seed = 1;
+	pthread_create(&a, NULL, worker, &T[0]);
+	pthread_create(&b, NULL, worker, &T[1]);
+	pthread_join(a, NULL); pthread_join(b, NULL);
+	printf("packets %%lu %%lu discarded %%lu %%lu\n", T[0].packets, T[1].packets,
+	       (unsigned long) %(p)sdiscarded_event_records_count(&T[0].ctx), (unsigned long) %(p)sdiscarded_event_records_count(&T[1].ctx));
+	return 0;
+}
+'''
+
+
+def build_tsan(cfg, ir, dst_name, workdir, bufsz=4096, iters=400):
+    """generates the tracer and a two-thread driver (one context, buffer and platform state per thread);
+    returns (exe or None, log)"""
+    os.makedirs(workdir, exist_ok=True)
+    common.gen_files(cfg, workdir)
+    fp = ir['prefix']['file']
+    p = ir['prefix']['ident']
+    d = [x for x in ir['dsts'] if x['name'] == dst_name][0]
+    g = _Gen()
+    gen_const_call(g, f'{p}{dst_name}_open_packet', '&t->ctx', params_of(d['pcExtra'], 'pc'))
+    open_code = '\n'.join(g.lines)
+    g = _Gen()
+    for e in d['erts']:
+        params = []
+        if d['ercc']:
+            params += params_of(d['ercc']['m'], 'cc')
+        if e['sc']:
+            params += params_of(e['sc']['m'], 'sc')
+        if e['p']:
+            params += params_of(e['p']['m'], 'p')
+        gen_const_call(g, f'{p}{dst_name}_trace_{e["name"]}', '&t->ctx', params)
+    clocks, setclocks = [], []
+    seen = {}
+    for x in ir['dsts']:
+        if x['clock']:
+            seen[x['clock']['name']] = x['clock']
+    for name, c in sorted(seen.items()):
+        ct = ('u' if not c['s'] else '') + f'int{c["w"]}_t'
+        clocks.append(f'static {ct} cb_clock_{name}(void *data) {{ struct th *t = (struct th *) data; return ({ct}) ++t->clk; }}')
+        setclocks.append(f'\tcbs.{name}_clock_get_value = cb_clock_{name};')
+    src = TSAN_SRC % {'cfile': f'{fp}.c', 'sctx': f'{p}{dst_name}_ctx', 'p': p, 'dst': dst_name, 'clocks': '\n'.join(clocks),
+                      'setclocks': '\n'.join(setclocks), 'open': open_code, 'traces': '\n'.join(g.lines), 'bufsz': bufsz, 'iters': iters}
+    with open(os.path.join(workdir, 'tsan.c'), 'w') as f:
+        f.write(src)
+    for cc in ('gcc', 'clang'):
+        rc, log = common.cc([cc, '-O0', '-g', '-fsanitize=thread', '-w', 'tsan.c', '-o', 'tsan', '-lpthread'], cwd=workdir)
+        if rc == 0:
+            return os.path.join(workdir, 'tsan'), cc
+    return None, log
